@@ -73,11 +73,14 @@ J conc_to_json(const ConcCase& c) {
     if (z.file_prefix) jz.set("file_prefix", true);
     if (z.null_times) jz.set("null_times", z.null_times);
     if (z.eio_times) jz.set("eio_times", z.eio_times);
+    if (z.throw_times) jz.set("throw_times", z.throw_times);
+    if (z.read_throw_times) jz.set("read_throw_times", z.read_throw_times);
     zs.push(jz);
   }
   j.set("zones", zs);
   j.set("tz_env_zone", c.tz_env_zone);
   j.set("tz_env_colon", c.tz_env_colon);
+  if (c.tz_env_via_localtime) j.set("tz_env_via_localtime", true);
   J ts = J::arr();
   for (size_t t = 0; t < c.tasks.size(); ++t) {
     J jt = J::obj(); jt.set("id", static_cast<int>(t));
@@ -115,10 +118,12 @@ bool conc_from_json(const J& j, ConcCase* c) {
     z.key = jz.gets("key"); z.literal = jz.getb("literal"); z.base = jz.gets("base"); z.state = jz.gets("state", "healthy");
     z.file_prefix = jz.getb("file_prefix");
     z.null_times = static_cast<int>(jz.geti("null_times")); z.eio_times = static_cast<int>(jz.geti("eio_times"));
+    z.throw_times = static_cast<int>(jz.geti("throw_times")); z.read_throw_times = static_cast<int>(jz.geti("read_throw_times"));
     c->zones.push_back(z);
   }
   c->tz_env_zone = static_cast<int>(j.geti("tz_env_zone", -2));
   c->tz_env_colon = j.getb("tz_env_colon");
+  c->tz_env_via_localtime = j.getb("tz_env_via_localtime");
   c->tasks.clear();
   for (const J& jt : j.at("tasks").a) {
     std::vector<Op> ops;
@@ -332,6 +337,13 @@ ConcCase gen_conc(const std::string& property, const std::string& tier, uint64_t
       if (fl.chance(0.5)) z.null_times = static_cast<int>(fl.range(1, 2)); else z.eio_times = static_cast<int>(fl.range(1, 2));
     }
   }
+  // User code may fail by exception: the factory itself, or a Read of the source it returned.  Nothing is cached for a
+  // load that ended that way (it neither succeeded nor failed), and everything after it must be as orderly as before.
+  if (fl.chance(0.08)) {
+    for (ZoneSpec& z : c.zones) if (!z.literal && fl.chance(0.5)) {
+      if (fl.chance(0.6)) z.throw_times = static_cast<int>(fl.range(1, 2)); else z.read_throw_times = static_cast<int>(fl.range(1, 2));
+    }
+  }
   if (is_c14) {
     for (ZoneSpec& z : c.zones) if (!z.literal) {
       static const std::vector<std::string> st = {"healthy", "healthy", "absent", "badmagic", "trunc", "eio", "badfooter"};
@@ -339,7 +351,7 @@ ConcCase gen_conc(const std::string& property, const std::string& tier, uint64_t
     }
   }
   uint64_t e = wl.below(10);
-  if (e < 2) c.tz_env_zone = -2; else if (e < 3) c.tz_env_zone = -1; else { c.tz_env_zone = static_cast<int>(wl.below(static_cast<uint64_t>(nz))); c.tz_env_colon = wl.chance(0.5); }
+  if (e < 2) c.tz_env_zone = -2; else if (e < 3) c.tz_env_zone = -1; else { c.tz_env_zone = static_cast<int>(wl.below(static_cast<uint64_t>(nz))); c.tz_env_colon = wl.chance(0.5); c.tz_env_via_localtime = wl.chance(0.2); }
   c.nslots = 4;
   int maxops = k > 8 ? 4 : (is_c14 ? 20 : 12);
   for (int t = 0; t < k; ++t) {
@@ -472,6 +484,7 @@ struct LoadRec {
   cctz::time_zone tz;
   bool local;
   std::string requested;  // full name requested (for LOCAL: the name $TZ resolves to)
+  bool threw = false;     // the call exited by an exception of the data source: neither a success nor a failure
 };
 struct QueryRec { int task, opidx; Slot slot; Query q; std::string got; };
 struct EqRec { int task, opidx; Slot a, b; bool got; };
@@ -535,6 +548,7 @@ struct Exec {
       CatEntry& e = cat[fullname(static_cast<int>(z))];
       e.null_times = zs.null_times;
       if (zs.eio_times > 0 && e.kind == CatEntry::BYTES) { e.eio_at = static_cast<int64_t>(e.bytes.size() / 2); e.eio_times = zs.eio_times; }
+      e.throw_times = zs.throw_times; e.read_throw_times = zs.read_throw_times;
       CatEntry& tw = cat[twinname(static_cast<int>(z))];
       tw.kind = CatEntry::BYTES;
       tw.bytes = base_bytes(zs.base);
@@ -548,6 +562,7 @@ struct Exec {
     clk.active = true;   // a fixed simulated date for the whole run (references included): replay does not depend on the day it is run
     env.active = true; fs.active = true;  // every fopen is ENOENT, every variable is ours
     if (c.tz_env_zone == -1) env.vars["TZ"] = "";
+    else if (c.tz_env_zone >= 0 && c.tz_env_via_localtime) { env.vars["TZ"] = std::string(c.tz_env_colon ? ":" : "") + "localtime"; env.vars["LOCALTIME"] = fullname(c.tz_env_zone); }
     else if (c.tz_env_zone >= 0) env.vars["TZ"] = std::string(c.tz_env_colon ? ":" : "") + fullname(c.tz_env_zone);
     factory_reset(&cat, static_cast<int>(c.tasks.size()));
     fac.factory_yields = c.factory_yields;
@@ -584,11 +599,12 @@ struct Exec {
         lr.seq_inv = global_seq();
         fac.task_op[static_cast<size_t>(t)] = name;
         cctz::time_zone tz;
-        bool ok;
-        { LibraryScope ls; ok = cctz::load_time_zone(name, &tz); }
+        bool ok = false;
+        try { LibraryScope ls; ok = cctz::load_time_zone(name, &tz); }
+        catch (const std::runtime_error&) { lr.threw = true; tz = cctz::time_zone(); }
         fac.task_op[static_cast<size_t>(t)] = "";
         lr.ok = ok; lr.tz = tz;
-        ev(std::string("return load(") + name + ") = " + (ok ? "true " : "false ") + tz.name());
+        ev(std::string("return load(") + name + ") = " + (lr.threw ? "(exception) " : (ok ? "true " : "false ")) + tz.name());
         lr.seq_ret = global_seq();
         loads.push_back(lr);
         Slot s; s.tz = tz; s.set = true; s.origin = OR_ZONE; s.z = o.z; s.ok = ok;
@@ -622,10 +638,11 @@ struct Exec {
         lr.seq_inv = global_seq();
         fac.task_op[static_cast<size_t>(t)] = lr.requested;
         cctz::time_zone tz;
-        { LibraryScope ls; tz = cctz::local_time_zone(); }
+        try { LibraryScope ls; tz = cctz::local_time_zone(); }
+        catch (const std::runtime_error&) { lr.threw = true; tz = cctz::time_zone(); }
         fac.task_op[static_cast<size_t>(t)] = "";
         { LibraryScope ls; lr.tz = tz; lr.ok = !(tz == cctz::utc_time_zone()); }
-        ev("return local_time_zone() = " + tz.name());
+        ev("return local_time_zone() = " + (lr.threw ? std::string("(exception)") : tz.name()));
         lr.seq_ret = global_seq();
         loads.push_back(lr);
         Slot s; s.tz = tz; s.set = true; s.origin = OR_ZONE; s.z = lr.z; s.ok = lr.ok;
@@ -795,7 +812,7 @@ Outcome exec_conc(const ConcCase& c, bool keep_log, Stats* stats) {
 
     // ---- identity / agreement over loads (C13) ------------------------------------------
     std::map<int, std::vector<const LoadRec*>> by_zone;
-    for (const LoadRec& lr : x.loads) by_zone[lr.z].push_back(&lr);
+    for (const LoadRec& lr : x.loads) if (!lr.threw) by_zone[lr.z].push_back(&lr);
     for (auto& kv : by_zone) {
       int z = kv.first;
       const std::vector<const LoadRec*>& v = kv.second;
@@ -890,7 +907,7 @@ Outcome exec_conc(const ConcCase& c, bool keep_log, Stats* stats) {
         for (const LoadRec& lr : x.loads) if (lr.task == fcall.task && lr.seq_inv <= fcall.seq_in && fcall.seq_in <= lr.seq_ret) owner = &lr;
         if (!owner) continue;
         for (const LoadRec& lr : x.loads)
-          if (lr.requested == fcall.name && lr.seq_ret < owner->seq_inv) {
+          if (lr.requested == fcall.name && !lr.threw && lr.seq_ret < owner->seq_inv) {
             viol("c14:cache-reload", "data source consulted again for " + fcall.name, "a load of it had already returned");
             break;
           }
@@ -914,7 +931,8 @@ Outcome exec_conc(const ConcCase& c, bool keep_log, Stats* stats) {
           viol("c20:factory-overlap", "factory entered for " + fcall.name + " while an invocation for " + other.name + " was in flight",
                "tasks " + std::to_string(other.task) + " and " + std::to_string(fcall.task) + (other.name == fcall.name ? " (same name)" : " (different names)"));
         }
-        if (++per_name[fcall.name] == 2) viol("c20:twice", "factory invoked twice for " + fcall.name, "");
+        // (an invocation that exited by exception - or whose source threw - completed no load, so asking again is not "twice")
+        if (!fcall.threw && ++per_name[fcall.name] == 2) viol("c20:twice", "factory invoked twice for " + fcall.name, "");
       }
     }
   }
@@ -964,6 +982,7 @@ Outcome exec_conc(const ConcCase& c, bool keep_log, Stats* stats) {
     stats->add("switches", sr.switches);
     stats->add("contended_lock_waits", sr.contended_locks);
     if (sr.cond_waits) stats->add("cond_waits", sr.cond_waits);
+    { int64_t n = 0; for (const LoadRec& lr : x.loads) n += lr.threw; if (n) stats->add("probe.load_exited_by_exception", n); }
     if (sr.tls_blocks) stats->add("probe.thread_local_instances_created", sr.tls_blocks);
     if (sr.cond_timeouts) stats->add("cond_timeouts", sr.cond_timeouts);
     stats->add("loads", static_cast<int64_t>(x.loads.size()));
